@@ -349,7 +349,7 @@ func c20Tasks(depth int) []c20Task {
 		{{K: model.OpNew, Path: model.PathMapN, Cs: ct.Of(ct.P, ct.Q)}, {K: model.OpNew, Path: model.PathMapN, Cs: ct.Of(ct.P, ct.Q)}, {K: model.OpRegister, F: 3}, {K: model.OpOpen, F: 3, Q: 0}, {K: model.OpNext, Q: 0}, {K: model.OpOpen, F: 2, Q: 1}, {K: model.OpNext, Q: 1}},
 	}
 	var tasks []c20Task
-	for _, cfg := range cfgs([]int{1}, []int{0, 40}, []api.RelMode{api.RelByIdx}, u) {
+	for _, cfg := range cfgs([]int{1}, []int{0, 40, 61}, []api.RelMode{api.RelByIdx}, u) {
 		for _, p := range pre {
 			_, s1, _ := runTrace(cfg, p, nil, c20Alphabet, false)
 			for _, op1 := range s1 {
@@ -521,6 +521,35 @@ func init() {
 			}
 			rep.States += int64(res[0].Cases)
 			rep.NonTrivial += int64(res[0].Cases)
+			// the per-arity generated code differs between debug and release builds
+			// (query_debug_gen.go / query_nodebug_gen.go): run the typed-vs-ID-based arity sweep in every build
+			{
+				os.Setenv("GOMAXPROCS", "1")
+				ares := make([]*SubResult, len(tags))
+				aerr := make([]error, len(tags))
+				var wg2 sync.WaitGroup
+				for i, tg := range tags {
+					wg2.Add(1)
+					go func(i int, tg string) {
+						defer wg2.Done()
+						ares[i], aerr[i] = RunSubPrebuilt("arity", tg, ts)
+					}(i, tg)
+				}
+				wg2.Wait()
+				os.Unsetenv("GOMAXPROCS")
+				for i, tg := range tags {
+					if aerr[i] != nil {
+						return aerr[i]
+					}
+					rep.Histories += int64(ares[i].Cases)
+					rep.Transitions += int64(ares[i].Steps)
+					rep.PerConfig = append(rep.PerConfig, fmt.Sprintf("C20 arity sweep in build tags=%q: histories=%d violations=%d", tg, ares[i].Cases, len(ares[i].Violations)))
+					for _, v := range ares[i].Violations {
+						v.Msg = fmt.Sprintf("[build %q] typed API disagrees with the ID-based semantics in this build: %s", tg, v.Msg)
+						rep.Found = append(rep.Found, engine.Found{Scenario: "C20-arity-" + tg, V: v, OpKind: "arity:" + tg + ":" + v.Kind})
+					}
+				}
+			}
 			rep.Samples = append(rep.Samples, "history: [New{P} ; Open(q0=f0) ; misuse:Get-before-Next(q0) ; Next(q0) ; Close(q0) ; misuse:Next-after-Close(q0)] traced in 4 builds")
 			// compare
 			seen := map[string]bool{}
